@@ -30,6 +30,9 @@ structure H where
   reading : Bool := false
   pending : Nat := 0           -- connections waiting in the listen backlog
   inflight : List (List HKind) := []   -- SCM_RIGHTS batches waiting in the socket
+  nodelay : Bool := false      -- UV_HANDLE_TCP_NODELAY set before the handle had a socket (applied in uv__stream_open)
+  keepalive : Bool := false    -- UV_HANDLE_TCP_KEEPALIVE, likewise
+  qsize : Nat := 0             -- capacity of the queued_fds array (0 = not allocated)
   deriving Repr
 
 /-- `fail <syscall> <occurrence> <errno>` lines preceding the op -/
@@ -82,22 +85,48 @@ def streamClosePrims (h : Nat) : List Prim :=
 
 def isStream (k : HKind) : Bool := k = .tcp || k = .pipe || k = .tty
 
-def acceptOk (s : St) (cli : Nat) (ckind : HKind) : Bool :=
+def nQueued (s : St) (h : Nat) : Nat := (s.l.1.led.filter (·.owner = .handle h .q)).length
+
+/-- is what field `o` holds a TCP socket? (TCP_NODELAY / keep-alive options only work on those) -/
+def heldIsTcp (s : St) (o : Owner) : Bool := match find? s.l.1.led o with | some e => e.kind.isTcp | none => false
+
+def cliNodelay (s : St) (cli : Nat) : Bool := match s.h? cli with | some x => x.kind = .tcp && x.nodelay | none => false
+def cliKeepalive (s : St) (cli : Nat) : Bool := match s.h? cli with | some x => x.kind = .tcp && x.keepalive | none => false
+
+/-- uv__stream_open's deferred options (stream.c:414-423): TCP_NODELAY / keep-alive requested while the handle had no
+    socket are applied to the descriptor now; if that fails the handle must NOT keep the descriptor -/
+def deferredOk (s : St) (inj : Inj) (cli : Nat) (isTcp : Bool) : Bool :=
+  (!cliNodelay s cli || ((s.fails inj "nodelay").isNone && isTcp)) && (!cliKeepalive s cli || isTcp)
+
+def acceptPre (s : St) (cli : Nat) (ckind : HKind) : Bool :=
   !s.has (.handle cli .io) && (ckind = .tcp || ckind = .pipe || ckind = .udp || ckind = .tty)
 
-/-- uv_accept (stream.c:536-598) -/
-def acceptInto (s : St) (srv cli : Nat) (ckind : HKind) : St :=
+def acceptOk (s : St) (inj : Inj) (srv cli : Nat) (ckind : HKind) : Bool :=
+  acceptPre s cli ckind && deferredOk s inj cli (heldIsTcp s (.handle srv .acc))
+
+/-- uv_accept, first half (stream.c:536-566): the pending descriptor goes to the client via uv__stream_open /
+    uv_udp_open, or is closed when that fails -/
+def acceptMove (s : St) (inj : Inj) (srv cli : Nat) (ckind : HKind) : St :=
   -- a connection taken from a listen backlog is bound; a descriptor received over IPC is whatever the sender made
   let fromIpc := ((s.h? srv).map (·.ipc)).getD false
-  let s := if acceptOk s cli ckind then
-             (s.run [.transfer (.handle srv .acc) (.handle cli .io)]).setH cli
-               (fun h => { h with readable := true, bound := !fromIpc, connected := !fromIpc })
-           else
-             -- stream.c:592-596: POLLIN is re-armed only `if (err == 0)`: after a failed uv_accept the server
-             -- stops accepting until uv_listen is called again
-             (s.run [.closeOwner (.handle srv .acc) false]).setH srv (fun h => { h with listening := false })
-  -- done: the next queued descriptor (if any) becomes the pending one
-  s.run [.transfer (.handle srv .q) (.handle srv .acc)]
+  let s0 := if acceptPre s cli ckind && cliNodelay s cli then s.tick inj "nodelay" else s
+  if acceptOk s inj srv cli ckind then
+    (s0.run [.transfer (.handle srv .acc) (.handle cli .io)]).setH cli
+      (fun h => { h with readable := true, bound := !fromIpc, connected := !fromIpc })
+  else
+    -- stream.c:592-596: POLLIN is re-armed only `if (err == 0)`: after a failed uv_accept the server
+    -- stops accepting until uv_listen is called again
+    (s0.run [.closeOwner (.handle srv .acc) false]).setH srv (fun h => { h with listening := false })
+
+/-- uv_accept, `done:` (stream.c:571-597): the next queued descriptor (if any) becomes the pending one; the array is
+    freed when it empties -/
+def acceptShift (s : St) (srv : Nat) : St :=
+  let s := s.run [.transfer (.handle srv .q) (.handle srv .acc)]
+  if nQueued s srv = 0 then s.setH srv (fun h => { h with qsize := 0 }) else s
+
+/-- uv_accept (stream.c:536-598) -/
+def acceptInto (s : St) (inj : Inj) (srv cli : Nat) (ckind : HKind) : St :=
+  acceptShift (acceptMove s inj srv cli ckind) srv
 
 /-- uv_stdio_container_t: UV_IGNORE, UV_CREATE_PIPE into pipe handle h, UV_INHERIT_FD of user descriptor f,
     UV_INHERIT_STREAM of stream handle h -/
@@ -117,6 +146,7 @@ inductive Op
   | uvPipe | uvSocketpair
   | fsOpen (variant : String) | fsMkstemp | fsClose (f : Nat) | fsCopyfile (variant : String)
   | flood (h n : Nat) | util
+  | sockopt (h : Nat) (keepalive : Bool)          -- uv_tcp_nodelay(h, 1) / uv_tcp_keepalive(h, 1, 60)
   | ipcSend (f h : Nat) (kinds : List HKind)
   | spawn (ok : Bool) (cs : List Cont)
   | end_
@@ -126,6 +156,9 @@ def ret (s : St) (ok : Bool) : St := s.say (if ok then "ret 0" else "ret E")
 def bad (s : St) : St := s.say "bad-op"
 
 /-! ## uv_run: one readiness event at a time -/
+
+def sockKind : HKind → Kind | .tcp => .tcp | .udp => .udp | _ => .sock
+def ipcKind : HKind → Kind | .tcp => .ipcTcp | .udp => .ipcUdp | _ => .ipc
 
 /-- a listening server with a connection in its backlog and no connection held (POLLIN armed) -/
 def serverReady (s : St) : Option Nat :=
@@ -143,8 +176,8 @@ def cbAccept (s : St) (inj : Inj) (i : Nat) (k : HKind) (streamInit : Bool) : St
   let c := s.hs.length
   let s := s.newH { kind := k }
   let s := if streamInit then emfileInit s inj else s
-  let ok := acceptOk s c k
-  (acceptInto s i c k).say s!"cb accept h{i} h{c} {if ok then "0" else "E"}"
+  let ok := acceptOk s inj i c k
+  (acceptInto s inj i c k).say s!"cb accept h{i} h{c} {if ok then "0" else "E"}"
 
 /-- uv__emfile_trick's loop (stream.c:494-498): accept and close until the backlog is empty or accept fails -/
 def shed (inj : Inj) (i : Nat) : Nat → St → St
@@ -169,19 +202,46 @@ def serverEvent (s : St) (inj : Inj) (i : Nat) : St :=
       | some _ => s.tick inj "open"
     else s
   | none =>
-    let s := ((s.tick inj "accept4").run [.create .uvAccept .sock (.handle i .acc)]).setH i (fun h => { h with pending := h.pending - 1 })
+    let s := ((s.tick inj "accept4").run [.create .uvAccept (sockKind h.kind) (.handle i .acc)]).setH i (fun h => { h with pending := h.pending - 1 })
     let s := s.say s!"cb conn h{i} 0"
     if h.policy = 1 then cbAccept s inj i h.kind true else s
 
-/-- uv__read → uv__stream_recv_cmsg (stream.c:981-1021), then the read callback -/
+/-- recvmsg delivers every descriptor of the message at once (locals `temp j`, …) -/
+def recvCreate : Nat → List HKind → St → St
+  | _, [], s => s
+  | j, k :: ks, s => recvCreate (j + 1) ks (s.run [.create .recvCmsg (ipcKind k) (.temp j)])
+
+/-- uv__stream_recv_cmsg (stream.c:981-1021) with uv__stream_queue_fd (942-977): the first descriptor becomes the
+    pending one, the others are queued (array of 8, grown by 8); once an allocation fails, that descriptor and all
+    remaining ones are closed.  `n` descriptors starting at local `temp j`; result: state and `err ≠ 0`. -/
+def recvQueue (inj : Inj) (i : Nat) : Nat → Nat → St → Bool → St × Bool
+  | _, 0, s, err => (s, err)
+  | j, n + 1, s, err =>
+    if err then recvQueue inj i (j + 1) n (s.run [.closeOwner (.temp j) false]) true else
+    if !s.has (.handle i .acc) then recvQueue inj i (j + 1) n (s.run [.transfer (.temp j) (.handle i .acc)]) false else
+    let qs := ((s.h? i).map (·.qsize)).getD 0
+    if qs = 0 then
+      match s.fails inj "malloc" with
+      | some _ => recvQueue inj i (j + 1) n ((s.tick inj "malloc").run [.closeOwner (.temp j) false]) true
+      | none => recvQueue inj i (j + 1) n (((s.tick inj "malloc").run [.transfer (.temp j) (.handle i .q)]).setH i
+                  (fun h => { h with qsize := 8 })) false
+    else if nQueued s i = qs then
+      match s.fails inj "realloc" with
+      | some _ => recvQueue inj i (j + 1) n ((s.tick inj "realloc").run [.closeOwner (.temp j) false]) true
+      | none => recvQueue inj i (j + 1) n (((s.tick inj "realloc").run [.transfer (.temp j) (.handle i .q)]).setH i
+                  (fun h => { h with qsize := h.qsize + 8 })) false
+    else recvQueue inj i (j + 1) n (s.run [.transfer (.temp j) (.handle i .q)]) false
+
+/-- uv__read on an IPC pipe (stream.c:1090-1160), then the read callback (harness: stop reading on error; with
+    policy `accept`, take every pending descriptor into a fresh handle) -/
 def ipcEvent (s : St) (inj : Inj) (i : Nat) : St :=
   let h := (s.h? i).getD { kind := .pipe }
   let batch := h.inflight.headD []
   let s := s.setH i (fun h => { h with inflight := h.inflight.tail })
-  let s := batch.foldl (fun s _ =>
-    if s.has (.handle i .acc) then s.run [.create .recvCmsg .ipc (.handle i .q)]
-    else s.run [.create .recvCmsg .ipc (.handle i .acc)]) s
-  let s := s.say s!"cb read h{i} 1"
+  let s := recvCreate 0 batch s
+  let r := recvQueue inj i 0 batch.length s false
+  if r.2 then r.1.setH i (fun h => { h with reading := false }) else
+  let s := r.1.say s!"cb read h{i} 1"
   if h.policy = 1 then
     batch.foldl (fun s k =>
       if !s.has (.handle i .acc) then s else cbAccept s inj i k (isStream k)) s
@@ -264,7 +324,7 @@ def spawnOp (s : St) (inj : Inj) (ok : Bool) (cs : List Cont) : St :=
       if execOk then ret s true else ret (s.setH p (fun h => { h with st := .closing })) false
 
 def userKind : String → Option (List Kind)
-  | "tcpsock" => some [.sock] | "udpsock" => some [.sock] | "unixsock" => some [.sock] | "file" => some [.file]
+  | "tcpsock" => some [.tcp] | "udpsock" => some [.udp] | "unixsock" => some [.sock] | "file" => some [.file]
   | "pipe" => some [.pipe, .pipe] | "sockpair" => some [.sock, .sock] | _ => none
 
 def userEntry (s : St) (f : Nat) : Option Entry :=
@@ -274,13 +334,30 @@ def userEntry (s : St) (f : Nat) : Option Entry :=
 
 /-! ## the catalogue, one definition per API operation -/
 
-/-- make sure handle h has a socket (maybe_new_socket tcp.c:86-109, uv__udp_bind udp.c:375-382, pipe connect):
-    `none` = socket() failed -/
+def needsNodelay (s : St) (h : Nat) : Bool := match s.liveH h with | some x => x.kind = .tcp && x.nodelay | none => false
+def sockKindOf (s : St) (h : Nat) : Kind := match s.h? h with | some x => sockKind x.kind | none => .sock
+
+/-- make sure handle h has a socket (maybe_new_socket/new_socket tcp.c:65-109, uv__udp_bind udp.c:375-382, pipe
+    connect): `none` = socket() failed, or the deferred TCP_NODELAY could not be applied to the new socket -/
 def ensureSock (s : St) (inj : Inj) (h : Nat) : Option St :=
   if s.has (.handle h .io) then some s else
   match s.fails inj "socket" with
   | some _ => none
-  | none => some ((s.tick inj "socket").run [.create .uvSocket .sock (.handle h .io)])
+  | none =>
+    let s1 := s.tick inj "socket"
+    if needsNodelay s h then
+      match s1.fails inj "nodelay" with
+      | some _ => none
+      | none => some ((s1.run [.create .uvSocket (sockKindOf s h) (.handle h .io)]).tick inj "nodelay")
+    else some (s1.run [.create .uvSocket (sockKindOf s h) (.handle h .io)])
+
+/-- the state after `ensureSock` returned `none`: nothing was opened, or new_socket closed the socket again
+    (tcp.c:72-76 `uv__close(sockfd)`) -/
+def ensureSockFail (s : St) (inj : Inj) (h : Nat) : St :=
+  match s.fails inj "socket" with
+  | some _ => s.tick inj "socket"
+  | none => ((((s.tick inj "socket").run [.create .uvSocket (sockKindOf s h) (.temp 0)]).tick inj "nodelay").run
+              [.closeOwner (.temp 0) false])
 
 /-- the loop's io_uring control ring (linux.c:654 → uv__iou_init): silently absent when the kernel refuses -/
 def loopInitRing (s : St) (inj : Inj) : St :=
@@ -354,7 +431,7 @@ def opTcpInit (s : St) (inj : Inj) (af : Bool) : St :=
   if af then
     match s.fails inj "socket" with
     | some _ => ret ((s.tick inj "socket").setH i (fun h => { h with st := .dead })) false
-    | none => ret ((s.tick inj "socket").run [.create .uvSocket .sock (.handle i .io)]) true
+    | none => ret ((s.tick inj "socket").run [.create .uvSocket .tcp (.handle i .io)]) true
   else ret s true
 
 def opUdpInit (s : St) (inj : Inj) (af : Bool) : St :=
@@ -363,7 +440,7 @@ def opUdpInit (s : St) (inj : Inj) (af : Bool) : St :=
   if af then
     match s.fails inj "socket" with
     | some _ => ret ((s.tick inj "socket").setH i (fun h => { h with st := .dead })) false
-    | none => ret ((s.tick inj "socket").run [.create .uvSocket .sock (.handle i .io)]) true
+    | none => ret ((s.tick inj "socket").run [.create .uvSocket .udp (.handle i .io)]) true
   else ret s true
 
 def opTtyInit (s : St) (inj : Inj) (f : Nat) : St :=
@@ -390,14 +467,35 @@ def opFsEventStart (s : St) (inj : Inj) (ok : Bool) : St :=
   | some _ => ret (s.tick inj "inotify_init1") false
   | none => ret ((s.tick inj "inotify_init1").run [.create .inotifyInit .inot (.loop .inotify)]) ok
 
-def opOpen (s : St) (h f : Nat) : St :=
+def opOpen (s : St) (inj : Inj) (h f : Nat) : St :=
   match s.liveH h, userEntry s f with
   | some hh, some e =>
     if !(hh.kind = .tcp || hh.kind = .pipe || hh.kind = .udp) then bad s else
     if s.has (.handle h .io) then ret s false else
-    if hh.kind = .udp && e.kind ≠ .sock then ret s false else
+    if hh.kind = .udp && !e.kind.isSock then ret s false else
+    -- uv_tcp_open → uv__stream_open: deferred TCP_NODELAY / keep-alive; on failure the caller keeps the descriptor
+    let ok := deferredOk s inj h e.kind.isTcp
+    let s := if cliNodelay s h then s.tick inj "nodelay" else s
+    if !ok then ret s false else
     ret ((s.run [.adopt f (.handle h .io)]).setH h (fun x => { x with readable := true })) true
   | _, _ => bad s
+
+/-- uv_tcp_nodelay(h, 1) / uv_tcp_keepalive(h, 1, 60) (tcp.c:578-622): applied at once when the handle has a socket,
+    otherwise remembered in the handle flags and applied by uv__stream_open -/
+def opSockopt (s : St) (inj : Inj) (h : Nat) (ka : Bool) : St :=
+  match s.liveH h with
+  | none => bad s
+  | some hh =>
+    if hh.kind ≠ .tcp then bad s else
+    if s.has (.handle h .io) then
+      let isTcp := heldIsTcp s (.handle h .io)
+      if ka then
+        if isTcp then ret (s.setH h (fun x => { x with keepalive := true })) true else ret s false
+      else
+        let ok := (s.fails inj "nodelay").isNone && isTcp
+        let s := s.tick inj "nodelay"
+        if ok then ret (s.setH h (fun x => { x with nodelay := true })) true else ret s false
+    else ret (s.setH h (fun x => if ka then { x with keepalive := true } else { x with nodelay := true })) true
 
 def opBind (s : St) (inj : Inj) (h : Nat) (variant : String) : St :=
   match s.liveH h with
@@ -407,7 +505,7 @@ def opBind (s : St) (inj : Inj) (h : Nat) (variant : String) : St :=
     if hh.kind = .tcp || hh.kind = .udp then
       -- the socket stays in the handle whatever bind(2) says
       match ensureSock s inj h with
-      | none => ret (s.tick inj "socket") false
+      | none => ret (ensureSockFail s inj h) false
       | some s =>
         if hh.bound then ret s false else
         if variant = "bad" then ret s false else
@@ -433,7 +531,7 @@ def opListen (s : St) (inj : Inj) (h : Nat) : St :=
     if hh.kind = .tcp then
       if hh.delayed then ret s false else
       match ensureSock s inj h with
-      | none => ret (s.tick inj "socket") false
+      | none => ret (ensureSockFail s inj h) false
       | some s =>
         if hh.connected then ret s false else
         ret (s.setH h (fun x => { x with listening := true, bound := true })) true
@@ -463,25 +561,25 @@ def opConnect (s : St) (inj : Inj) (h : Nat) (target : Option Nat) : St :=
       if badTarget then bad s else
       if hh.connected then ret s false else
       match connSock s inj h hh.delayed with
-      | none => ret (s.tick inj "socket") false
+      | none => ret (ensureSockFail s inj h) false
       | some s =>
         -- tcp.c:309-310: with a delayed bind error no connect(2) is made at all
         let s := s.setH h (fun x => { x with connected := true, readable := true })
         ret (if hh.delayed then s else bump s) true
     else if hh.kind = .pipe then
       match ensureSock s inj h with
-      | none => ret (s.tick inj "socket") true
+      | none => ret (ensureSockFail s inj h) true
       | some s =>
         if hh.connected || hh.listening then ret s true else
         ret (bump (s.setH h (fun x => { x with connected := tgtOk, readable := x.readable || tgtOk }))) true
     else bad s
 
-def opAccept (s : St) (sv c : Nat) : St :=
+def opAccept (s : St) (inj : Inj) (sv c : Nat) : St :=
   match s.liveH sv, s.liveH c with
   | some _, some ch =>
     if !s.has (.handle sv .acc) then ret s false else
     if !(ch.kind = .tcp || ch.kind = .pipe || ch.kind = .udp || ch.kind = .tty) then ret s false else
-    ret (acceptInto s sv c ch.kind) (acceptOk s c ch.kind)
+    ret (acceptInto s inj sv c ch.kind) (acceptOk s inj sv c ch.kind)
   | _, _ => bad s
 
 def opClose (s : St) (h : Nat) : St :=
@@ -573,7 +671,7 @@ def step (s : St) (inj : Inj) (op : Op) : St :=
     | .asyncInit => ret (s.newH { kind := .async }) true
     | .signalStart => ret (s.newH { kind := .signal }) true
     | .fsEventStart ok => opFsEventStart s inj ok
-    | .open_ h f => opOpen s h f
+    | .open_ h f => opOpen s inj h f
     | .bind h variant _ => opBind s inj h variant
     | .listen h => opListen s inj h
     | .policy h p => (match s.liveH h with | some _ => s.setH h (fun x => { x with policy := p }) | none => bad s)
@@ -582,7 +680,7 @@ def step (s : St) (inj : Inj) (op : Op) : St :=
       | none => bad s
       | some hh => if hh.readable then ret (s.setH h (fun x => { x with reading := true })) true else ret s false)
     | .connect h target => opConnect s inj h target
-    | .accept sv c => opAccept s sv c
+    | .accept sv c => opAccept s inj sv c
     | .close h => opClose s h
     | .run => opRun s inj
     | .fsOpen variant => opFsOpen s inj variant
@@ -591,6 +689,7 @@ def step (s : St) (inj : Inj) (op : Op) : St :=
     | .fsCopyfile v => opFsCopyfile s inj v
     | .flood h n => opFlood s h n
     | .util => ret s true
+    | .sockopt h ka => opSockopt s inj h ka
     | .ipcSend f h kinds => opIpcSend s f h kinds
     | .spawn ok cs => opSpawn s inj ok cs
     | _ => bad s
